@@ -503,9 +503,10 @@ def check_hash(ctx, R):
     probs = sorted(set(probs))
     unknown_api = sorted({e[1] for kind, val, st in outs for e in st.trace if e[0] == 'file-unknown'})
     lazy = any(e[0] in ('recursion-cut', 'generator') for kind, val, st in outs for e in st.trace) or \
-        any(f_.yields() for f_ in ctx.repo.transparent_closure(h) if f_ is not h)
+        any(f_.yields() for f_ in ctx.repo.transparent_closure(h) if f_ is not h) or \
+        any(isinstance(c_, ast.Call) and (dotted(c_.func) or '').split('.')[-1] in ('partial', 'iter_unpack', 'islice', 'takewhile') for c_ in h.calls())
     if probs and lazy:
-        ctx.undecided('C20.T2', h, 'the file is read through a generator helper: the interleaving of its reads with the digest updates is not modelled by the hash walk')
+        ctx.undecided('C20.T2', h, 'the file is read through a generator helper or an iterator adaptor (iter(partial(read, n), b""), ...): the interleaving of its reads with the digest updates is not modelled by the hash walk')
     elif probs and unknown_api:
         ctx.undecided('C20.T2', h, 'the file is read through %s, which the hash walk does not model: nothing is concluded about the hashed bytes' % ', '.join('.%s()' % x for x in unknown_api))
     elif probs:
